@@ -131,7 +131,19 @@ impl<'a, 'b> ElemGen<'a, 'b> {
                     }
                 }
                 let pieces = rng.range(1, 3);
-                partition(rng, r, &items, pieces)
+                let mut attrs = partition(rng, r, &items, pieces);
+                // an attribute the receiver reads whose contents are not a list of items at all
+                if (rng.below(10) as u32) < self.p_mistake && rng.chance(1, 6) {
+                    let cands: Vec<usize> = attrs.iter().enumerate().filter(|(_, a)| matches!(&a.kind, AttrKind::List(items, d) if *d < 10 && items.len() >= 2) && r.attr_names.iter().any(|n| *n == attr_key(a))).map(|(i, _)| i).collect();
+                    if !cands.is_empty() {
+                        let i = *rng.pick(&cands);
+                        if let AttrKind::List(_, d) = &mut attrs[i].kind {
+                            *d += 10;
+                            mistakes.push("garbled-attribute");
+                        }
+                    }
+                }
+                attrs
             }
         }
     }
